@@ -10,7 +10,7 @@ Definition n_ref : str := [80;89;88;70;79;82;77;95;82;69;70].                   
 Definition tname_of (n : str) : tname :=
   if seqb n n_ref_start then TStart else if seqb n n_ref_end then TEnd else if seqb n n_name then TName else if seqb n n_ref then TRef else TOther.
 Definition ref_syntax_ok (v : str) : bool :=
-  if (Nat.leb (length v) 2) || negb (contains [36;123] v) then true
+  if (Nat.ltb (length v) 2) || negb (contains [36;123] v) then true
   else ref_check false (map (fun t => tname_of (fst t)) (tokens v)).
 
 (* expression.is_pyxform_reference: value and len(value) > 3 and RE_ONLY_PYXFORM_REF.match(value), the pattern being
